@@ -126,6 +126,18 @@ def run(ctx):
         res.add(Finding('C08', 'C08.a', 'R-TYPESTATE', runc.file, runc.qualname, h_.lineno, 'except %s' % (norm(h_.type) if h_.type is not None else ''),
                         'the handler `except %s` inside the loop over the ids can end without yielding a comparison: the recording it was handling gets no '
                         'verdict (the consumer sees fewer comparisons than ids)' % (norm(h_.type) if h_.type is not None else '')))
+    # whatever the equalizer itself catches while replaying / extracting / comparing is a framework failure: a handler that names another
+    # status files the failure under "the code under test regressed" (or "equal")
+    eq_cls = runc.cls
+    wrong_status = [(m_, h_, x) for m_ in eq_cls.methods.values() for h_ in ast.walk(m_.node) if isinstance(h_, ast.ExceptHandler)
+                    for x in ast.walk(h_) if isinstance(x, ast.Attribute) and isinstance(x.value, ast.Name) and x.value.id == 'EqualityStatus' and
+                    x.attr != 'EqualizerFailure']
+    ca.instance('handlers of the equalizer report EqualityStatus.EqualizerFailure only', eq_cls.name, not wrong_status)
+    for m_, h_, x in wrong_status[:1]:
+        res.add(Finding('C08', 'C08.a', 'R-TYPESTATE', m_.file, m_.qualname, x.lineno, norm(x),
+                        'the handler `except %s` of %s answers with `%s`: a failure while replaying, extracting or comparing must become the '
+                        'framework-failure verdict (EqualizerFailure), not a verdict about the replayed code' % (
+                            norm(h_.type) if h_.type is not None else '', m_.qualname, norm(x))))
     idvar = None
     for x in ast.walk(main.target):
         if isinstance(x, ast.Name) and 'id' in x.id:
